@@ -32,6 +32,11 @@ P["C10"] = dict(
    note=TB + " 3 known-finding classes (prod float64 refused - pinned by the repo's own tests, std float64 via float32, uint64 min/max via int64). 4 fixes committed (argmin dispatch, method keepdims, negative axes on empty input, argmax/argmin axis=None dtypes, all/any).",
    technique="Coq theorems on an executable tensor model + ast translation of the reduction prologue and dispatch table re-proved each run + in-Coq correspondence",
    ref="DESIGN.md §5 C10")
+P["C08"] = dict(
+   text="Proof, partial. Coq theorem slice_1d (closed under the global context): for every extent n < 2^62 and every slice inside the standard's bounds (start/stop given or omitted, any step sign, INT64 sentinels) the Slice ndonnx emits - onnxruntime's clamping semantics written out - selects exactly Python's slice.indices sequence; a witness shows the guard is needed. Tie 1 (T-src, every run): ndonnx/_index.py and _CoreArray._normalise_index are translated by a fail-closed ast translator into Gallina over a universal Python value type; Coq proves (generic script) that the translation equals the typed model for every index entry, and the 1-D theorem is re-stated on the translation (C08_slice_as_written), so an expression-level edit of the normaliser lands in a proof obligation. Tie 2 (in-Coq correspondence, every run): x[index] on token tensors equals the executable model of the lowering (one Slice, Gathers in reverse order, Unsqueeze; ellipsis expansion, rank check) for ALL 1-D cases with extents 0-4 and ~1500 random tuples over {int, slice, Ellipsis, None} of ranks 0-3 incl. malformed ones (IndexError/TypeError); on the same cases Coq checks model = NumPy's left-to-right semantics. Partial: the n-D statement for all tuples is tested in Coq, not yet proved; masks and integer index arrays are compared with NumPy only.",
+   note=TB + " Known findings: onnxruntime's Gather on strings (runtime bug), masks of lower rank over zero extents.",
+   technique="Coq proof of the 1-D slice law + ast translation of the index normaliser proved equal to the model each run + in-Coq correspondence of the n-D lowering",
+   ref="DESIGN.md §5 C08")
 NOT_YET = {}
 props = [json.loads(l) for l in open(V/'properties.jsonl')]
 checks, na = [], []
